@@ -931,7 +931,15 @@ class QueryBuilder(Selectable, Term):  # type:ignore[misc]
             A copy of the query with the tables replaced.
         """
         self._from = [
-            new_table if table == current_table else table  # type:ignore[misc]
+            (
+                new_table  # type:ignore[misc]
+                if table == current_table
+                else (
+                    table
+                    if isinstance(table, Table)
+                    else table.replace_table(current_table, new_table)  # subquery, set operation
+                )
+            )
             for table in self._from
         ]
         if self._insert_table == current_table:
@@ -1894,7 +1902,15 @@ class Join:
         :return:
             A copy of the join with the tables replaced.
         """
-        self.item = self.item.replace_table(current_table, new_table)
+        self._replace_item(current_table, new_table)
+
+    def _replace_item(self, current_table: Table | None, new_table: Table | None) -> None:
+        if isinstance(self.item, Table):
+            if self.item == current_table:
+                self.item = new_table  # type:ignore[assignment]
+        else:
+            # subquery, set operation or CTE reference
+            self.item = self.item.replace_table(current_table, new_table)
 
 
 class JoinOn(Join):
@@ -1945,8 +1961,7 @@ class JoinOn(Join):
         :return:
             A copy of the join with the tables replaced.
         """
-        if self.item == current_table:
-            self.item = new_table  # type:ignore[assignment]
+        self._replace_item(current_table, new_table)
         self.criterion = self.criterion.replace_table(current_table, new_table)
 
 
@@ -1980,8 +1995,7 @@ class JoinUsing(Join):
         :return:
             A copy of the join with the tables replaced.
         """
-        if self.item == current_table:
-            self.item = new_table  # type:ignore[assignment]
+        self._replace_item(current_table, new_table)
         self.fields = [field.replace_table(current_table, new_table) for field in self.fields]
 
 
